@@ -25,7 +25,7 @@ import (
 // again and the location has been loaded from storage.
 
 func init() {
-	h.Register(&h.World{Prop: "C17", Name: "overlap", Share: 1, Gen: genC17Overlap, Exec: execC17Overlap})
+	h.Register(&h.World{Prop: "C17", Name: "overlap", Share: 2, Gen: genC17Overlap, Exec: execC17Overlap})
 }
 
 func genC17Overlap(r *h.Rng, tier string, idx int) *h.Plan {
